@@ -231,7 +231,7 @@ impl Prop for C10 {
             if sat {
                 out.count("configs_with_u8_saturation");
             }
-            if k == 0 && idx < 2 {
+            if out.sample.is_none() && idx < 32 {
                 out.sample = Some(json!({"source": w.name, "tab_width": tw, "continuation_indents": ci, "tabs output": short(&o_tab, 200), "spaces output": short(&o_sp, 200)}));
             }
         }
